@@ -52,6 +52,7 @@ from mashumaro.core.meta.helpers import (
     is_named_tuple,
     is_optional,
     is_type_var_any,
+    is_union,
     resolve_type_params,
     substitute_type_params,
     type_name,
@@ -1182,10 +1183,14 @@ class CodeBuilder:
     ) -> typing.Tuple[str, typing.Optional[str], bool]:
         metadata = self.metadatas.get(fname, {})
         alias = self.__get_field_alias(fname, ftype, metadata, config)
+        real_type = self.get_real_type(fname, ftype)
         could_be_none = (
             ftype in (typing.Any, type(None), None)
-            or is_type_var_any(self.get_real_type(fname, ftype))
+            or is_type_var_any(real_type)
             or is_optional(ftype, self.get_field_resolved_type_params(fname))
+            # Union[X, Y, None] is as nullable as Optional[X]: omit_none
+            # (and TOML, which has no null) must be able to drop the key
+            or (is_union(real_type) and NoneType in get_args(real_type))
             or self.get_field_default(fname) is None
         )
         value = "value" if could_be_none or force_value else f"self.{fname}"
